@@ -5,6 +5,7 @@ import (
 	"flag"
 	"fmt"
 	"os"
+	"runtime/pprof"
 )
 
 // Main is the command line entry point (see DESIGN.md §4.1).
@@ -21,7 +22,13 @@ func Main(args []string) int {
 		workers := fs.Int("workers", 1, "workers")
 		maxPaths := fs.Int("max-paths", 100000, "path limit")
 		verbose := fs.Bool("v", false, "verbose")
+		cpuprof := fs.String("cpuprofile", "", "write cpu profile")
 		fs.Parse(args[1:])
+		if *cpuprof != "" {
+			f, _ := os.Create(*cpuprof)
+			pprof.StartCPUProfile(f)
+			defer pprof.StopCPUProfile()
+		}
 		if *verbose {
 			SlowQueryLog = func(secs float64, what string) { fmt.Fprintf(os.Stderr, "slow query %.1fs: %s\n", secs, what) }
 		}
@@ -38,7 +45,6 @@ func Main(args []string) int {
 			fmt.Fprintln(os.Stderr, err)
 			return 3
 		}
-		hr.Instrs = nil
 		b, _ := json.MarshalIndent(hr, "", " ")
 		fmt.Println(string(b))
 		return 0
